@@ -3,13 +3,13 @@ package verifharness
 // C12 (c)(d)(e): structural damage of specification-generated messages, 64 KiB worst cases, and the resolver.
 
 import (
-	"strings"
 	"bytes"
 	"context"
 	"fmt"
 	"net"
 	"os"
 	"runtime"
+	"strings"
 	"testing"
 	"time"
 
